@@ -294,6 +294,36 @@ pub fn generate_c14(rng: &mut Rng, thorough: bool) -> Vec<String> {
     let mut v = Vec::new();
     let n = if thorough { 40_000 } else { 5_000 };
     let largest = ["year", "month", "week", "day", "hour", "minute", "second", "nanosecond", "-"];
+    // zones that skip a whole calendar day (the clocks jump forward by 24 h or more, as Pacific/Apia did at the end
+    // of 2011): differences across the skipped day, in both directions, rounded to days, weeks, months - a bracket end
+    // that falls into the skipped day resolves to the same instant as the other end
+    for _ in 0..(if thorough { 1500 } else { 250 }) {
+        let init = *rng.pick(&[-43_200i64, -39_600, -36_000, -34_200, 0]);
+        let jump = *rng.pick(&[86_400i64, 86_400, 90_000, 88_200, 172_800 / 2 + 1800]);
+        let t = rng.range(-2_000_000_000, 4_000_000_000) as i64;
+        let z = format!("z:{init};{t},{}", (init + jump).min(86_399));
+        let tn = t as i128 * 1_000_000_000;
+        for _ in 0..3 {
+            let after = tn + rng.range(0, 3 * DAY);
+            let before = tn - rng.range(1, 3 * DAY);
+            let (su, dl) = *rng.pick(&[("day", "day"), ("day", "week"), ("day", "month"), ("week", "week"), ("day", "year"), ("hour", "day")]);
+            let md = *rng.pick(&MODES);
+            for (x, y) in [(after, before), (before, after)] {
+                v.push(format!("zdt_until {z} {x} {y} {dl} {su} 1 {md}"));
+                v.push(format!("zdt_since {z} {x} {y} {dl} {su} 1 {md}"));
+            }
+            v.push(format!("zdt_law {z} {after} {before} day"));
+            // both values after the jump, one to two days past it and less than that apart: going back from the
+            // later one, the end of the day bracket falls into the skipped day and resolves to the instant of its start
+            let r1 = rng.range(0, DAY - 1);
+            let x = tn + DAY + r1;
+            let y = tn + rng.range(0, r1.max(1));
+            for (p, q) in [(x, y), (y, x)] {
+                v.push(format!("zdt_until {z} {p} {q} {dl} {su} 1 {md}"));
+                v.push(format!("zdt_since {z} {p} {q} {dl} {su} 1 {md}"));
+            }
+        }
+    }
     for _ in 0..n {
         let (z, ts) = rand_zone(rng);
         for _ in 0..3 {
@@ -324,6 +354,17 @@ pub fn generate_c14(rng: &mut Rng, thorough: bool) -> Vec<String> {
             v.push(format!("zdt_sub {z} {a} {dus} {ov}"));
             let l = rng.pick(&largest);
             v.push(format!("zdt_until {z} {a} {b} {l} - - -"));
+            // the other value in another zone: the same instant, a neighbour, anything - with a date largest unit a
+            // RangeError whatever the instants, with a time largest unit the exact difference
+            if rng.chance(1, 3) {
+                let z2 = format!("o:{}", rng.pick(&[0i64, 60, -60, 330, -720, 1439]));
+                let b2 = match rng.below(3) { 0 => a, 1 => a + rng.range(-2, 2), _ => b };
+                let op = if rng.chance(1, 2) { "zdt_until2" } else { "zdt_since2" };
+                if z2 != z {
+                    v.push(format!("{op} {z} {z2} {a} {b2} {l} - - -"));
+                    v.push(format!("{op} {z2} {z} {a} {b2} {} - - -", rng.pick(&["day", "hour", "year", "-", "week", "second"])));
+                }
+            }
             v.push(format!("zdt_since {z} {a} {b} {l} - - -"));
             // the inverse law is stated for date largest units (time units are exact differences, C06)
             v.push(format!("zdt_law {z} {a} {b} {}", rng.pick(&["year", "month", "week", "day"])));
@@ -503,6 +544,17 @@ pub fn eval(t: &[&str]) -> Option<String> {
                 if t[0] == "zdt_add" { z.add_with_provider(&du, ov, &p) } else { z.subtract_with_provider(&du, ov, &p) }
             });
             Some(render(r, |z| z.epoch_nanoseconds().as_i128().to_string()))
+        }
+        "zdt_until2" | "zdt_since2" => {
+            // two zoned date-times in two zones (fixed offsets, or one synthetic zone and one fixed offset)
+            let (tz1, p) = zone_of(t[1]);
+            let (tz2, _) = zone_of(t[2]);
+            let r = zdt(&tz1, i(t[3])).and_then(|a| {
+                let b = zdt(&tz2, i(t[4]))?;
+                let st = settings(t[5], t[6], t[7], t[8])?;
+                if t[0] == "zdt_until2" { a.until_with_provider(&b, st, &p) } else { a.since_with_provider(&b, st, &p) }
+            });
+            Some(render(r, |d| fmt_duration(&d)))
         }
         "zdt_until" | "zdt_since" => {
             let (tz, p) = zone_of(t[1]);
